@@ -51,7 +51,7 @@ func Prototype(ptrType interface{}, schemaType schema.Type, options ...Option) s
 		}
 
 		if schemaType == nil {
-			schemaType = inferSchema(goType, 0)
+			schemaType = inferSchemaSync(goType)
 		} else {
 			verifyCompatibility(cfg, make(map[seenEntry]bool), goType, schemaType)
 		}
@@ -448,7 +448,7 @@ func Wrap(ptrVal interface{}, schemaType schema.Type, options ...Option) schema.
 		panic("bindnode: ptrVal must not be a pointer to a pointer")
 	}
 	if schemaType == nil {
-		schemaType = inferSchema(goVal.Type(), 0)
+		schemaType = inferSchemaSync(goVal.Type())
 	} else {
 		// TODO(rvagg): explore ways to make this skippable by caching in the schema.Type
 		// passed in to this function; e.g. if you call Prototype(), then you've gone through
